@@ -92,6 +92,11 @@ type summaryWalker struct {
 	exports         []*TypeRef
 	refs            []*sourcewalk.RefNode
 	subPackageFiles []string
+
+	// inSubPackage counts the service / topic files being walked: what is
+	// declared there (request, response and message objects) belongs to the
+	// sub-package, not to the exports of this file's package.
+	inSubPackage int
 }
 
 func (c *summaryWalker) includeSubFile(subPackage string) {
@@ -104,6 +109,9 @@ func (c *summaryWalker) includeSubFile(subPackage string) {
 }
 
 func (c *summaryWalker) addExport(ref *TypeRef) {
+	if c.inSubPackage > 0 {
+		return
+	}
 	c.exports = append(c.exports, ref)
 }
 
@@ -145,6 +153,22 @@ func (cc *summaryWalker) collectFileRefs(sourceFile *sourcedef_j5pb.SourceFile) 
 		},
 		Topic: func(node *sourcewalk.TopicNode) error {
 			cc.includeSubFile("topic")
+			return nil
+		},
+		ServiceFile: func(*sourcewalk.ServiceFileNode) error {
+			cc.inSubPackage++
+			return nil
+		},
+		ServiceFileExit: func(*sourcewalk.ServiceFileNode) error {
+			cc.inSubPackage--
+			return nil
+		},
+		TopicFile: func(*sourcewalk.TopicFileNode) error {
+			cc.inSubPackage++
+			return nil
+		},
+		TopicFileExit: func(*sourcewalk.TopicFileNode) error {
+			cc.inSubPackage--
 			return nil
 		},
 	}
